@@ -35,6 +35,9 @@ func runC06(c *an.Ctx) {
 	r06l(c)
 	// round 8
 	r06m(c)
+	// round 9
+	r06n(c)
+	c.As(map[string]string{"R08i": "R06o"}, func() { r08i(c) })
 }
 
 func before(a, b ssa.Instruction) bool { return an.CanReach(a, b) && !an.CanReach(b, a) }
@@ -409,7 +412,20 @@ func r06d(c *an.Ctx) {
 	td := tds[0].(*ssa.Call)
 	force, keep := fn.Params[2], fn.Params[3]
 	// teardown is called with the force parameter
-	c.Ob(key+"|force-passed", td.Pos(), td.Call.Args[2] == ssa.Value(force), "the force flag of the request is what TeardownEnvironment receives")
+	// (in a retry loop the flag is a loop-carried value: the request's flag on entry, true on the way round)
+	forceOK := td.Call.Args[2] == ssa.Value(force)
+	var forcePhi *ssa.Phi
+	if phi, isPhi := td.Call.Args[2].(*ssa.Phi); isPhi {
+		forceOK = len(phi.Edges) > 0
+		for _, e := range phi.Edges {
+			k, isK := e.(*ssa.Const)
+			if e != ssa.Value(force) && !(isK && k.Value != nil && k.Value.String() == "true") {
+				forceOK = false
+			}
+		}
+		forcePhi = phi
+	}
+	c.Ob(key+"|force-passed", td.Pos(), forceOK, "the force flag of the request is what TeardownEnvironment receives")
 	okAll := true
 	for _, ret := range an.Returns(fn) {
 		if len(ret.Results) != 2 {
@@ -442,6 +458,17 @@ func r06d(c *an.Ctx) {
 		if cst, ok := ci.Common().Args[2].(*ssa.Const); ok && cst.Value != nil && cst.Value.String() == "true" {
 			if an.KnownFalse(ci.Block(), force) && an.KnownNonNil(ci.Block(), td) {
 				retry = true
+			}
+		}
+	}
+	if !retry && forcePhi != nil {
+		// loop form: the way round sets the flag to true, and is taken only after the teardown failed with the flag false
+		for i, e := range forcePhi.Edges {
+			if k, isK := e.(*ssa.Const); isK && k.Value != nil && k.Value.String() == "true" {
+				p := forcePhi.Block().Preds[i]
+				if an.KnownNonNil(p, td) && an.KnownFalse(p, forcePhi) {
+					retry = true
+				}
 			}
 		}
 	}
